@@ -63,6 +63,7 @@ Collide == {"k9870", "k53003"}
 Pred(p, v) == CASE p.f = "ge"   -> v >= p.a
                 [] p.f = "lt"   -> v < p.a
                 [] p.f = "eq"   -> v = p.a
+                [] p.f = "false" -> v = FALSE
                 [] OTHER        -> v = TRUE
 
 \* lexicographic order on sequences of integers (Go's string order on bytes)
@@ -556,8 +557,15 @@ FilterValue(t, f, col, p) ==
                     [] f = "wstr" -> col \in DOMAIN S.reg /\ S.reg[col].k \in {"str", "enum", "key", "tok"}
                     [] OTHER -> col \in DOMAIN S.reg
          val(o) == IF S.reg[col].k = "bool" THEN TRUE ELSE S.data[col][o]
-     IN txn' = [txn EXCEPT ![t].sel = IF typed THEN {o \in @ \cap S.has[col] : Pred(p, val(o))} ELSE {},
-                           ![t].self = {}]
+         \* WithValue on a bitmap index: the value of a row is its membership (every live row has one - provided the index
+         \* bitmap reaches it, which holds when the index existed before the row's block was first committed: the only
+         \* case the harness drives); value-less filler rows are in no index
+         onIndex == f = "wval" /\ col \in DOMAIN S.ix
+     IN txn' = IF onIndex
+                 THEN [txn EXCEPT ![t].sel = {o \in @ : Pred(p, o \in S.ix[col].set)},
+                                  ![t].self = IF Pred(p, FALSE) THEN @ ELSE {}]
+                 ELSE [txn EXCEPT ![t].sel = IF typed THEN {o \in @ \cap S.has[col] : Pred(p, val(o))} ELSE {},
+                                  ![t].self = {}]
   /\ UNCHANGED <<st, used, files, dev>>
 
 SelCount(t) == Cardinality(txn[t].sel) + FillerSize(txn[t].self)
@@ -677,8 +685,14 @@ SnapBlock(t) ==
 
 \* the recorder is detached: what it has recorded belongs to this snapshot (each snapshot has a temporary file of its own), and
 \* from here on another snapshot may install its recorder - also before this one has copied its log and returned
-SnapClose(t) ==
+\* every block has been written; the recorder is still installed (an observation point of its own under real parallelism)
+SnapAllRead(t) ==
   /\ txn[t].pc = "snap.blocks" /\ Len(txn[t].sn.blocks) = txn[t].sn.nb
+  /\ txn' = [txn EXCEPT ![t].pc = "snap.closing"]
+  /\ UNCHANGED <<st, used, files, dev>>
+
+SnapClose(t) ==
+  /\ txn[t].pc \in {"snap.blocks", "snap.closing"} /\ Len(txn[t].sn.blocks) = txn[t].sn.nb
   /\ txn' = [txn EXCEPT ![t].pc = "snap.copy", ![t].sn.log = Coll(t).rec.log]
   /\ st' = [st EXCEPT ![txn[t].c].rec = [open |-> FALSE, log |-> <<>>]]
   /\ UNCHANGED <<used, files, dev>>
@@ -694,7 +708,7 @@ SnapCopy(t, name) ==
 
 \* the destination failed: Snapshot returns the error; the recorder must be detached again
 SnapFail(t) ==
-  /\ txn[t].pc \in {"snap.open", "snap.blocks", "snap.copy"}
+  /\ txn[t].pc \in {"snap.open", "snap.blocks", "snap.closing", "snap.copy"}
   \* (in the copy stage its recorder is detached already: the one installed now, if any, belongs to another snapshot)
   /\ st' = IF txn[t].pc = "snap.copy" THEN st ELSE [st EXCEPT ![txn[t].c].rec = [open |-> FALSE, log |-> <<>>]]
   /\ txn' = [txn EXCEPT ![t] = [IdleTxn EXCEPT !.pc = "done", !.c = txn[t].c]]
@@ -823,7 +837,7 @@ Drop(c) ==
 \* resources (open descriptors, recorder files in the temp directory), measured by the harness after forced GCs:
 \* whenever no snapshot is running they are what they were at the first measurement (C14)
 ResProbe(fds, tmp) ==
-  /\ \A t \in Actors : txn[t].pc \notin {"snap.open", "snap.blocks", "snap.copy"}
+  /\ \A t \in Actors : txn[t].pc \notin {"snap.open", "snap.blocks", "snap.closing", "snap.copy"}
   /\ IF "res" \in DOMAIN files
        THEN fds = files["res"].fds /\ tmp = files["res"].tmp /\ UNCHANGED files
        ELSE files' = files @@ ("res" :> [fds |-> fds, tmp |-> tmp])
